@@ -20,6 +20,8 @@ Configuration spec (``cfg``, pure JSON - part of every case)
      "exc": bool,                      enable_rails_exceptions
      "style": "config" | "hand"}       v2 only: rails listed in config.yml (parameterless flows reading the globals)
                                        or hand-written `flow input rails $input_text` passing the text on
+     (optional) "ext": name            opt-in: a check module's registered extension post-processes the generated configuration
+                                       and adds fake actions (see ``register_extension``); the extension defines its own keys
     kind: "check"   $allowed = execute a(text=..) / if not $allowed / refuse-or-exception / stop     (library shape)
           "rewrite" $user_message = execute a(text=$user_message)                                  (v1 only)
           "both"    block or replace the text                                                      (v1 only)
@@ -357,9 +359,35 @@ def _v2_config(cfg):
     return "\n".join(co) + "\n", yaml.safe_dump(y, sort_keys=False)
 
 
+_EXTENSIONS = {}
+
+
+def register_extension(name, build_config=None, actions=None):
+    """Opt-in extension point for one check module (nothing changes for a spec without the key "ext").
+
+    A configuration spec selects it with the optional key ``"ext": name``; then ``build_config(cfg, colang, yaml_text)
+    -> (colang, yaml_text)`` post-processes the generated configuration and ``actions(cfg) -> [fake action, ...]``
+    are registered next to the standard ones.  The registering module must be imported before the case runs
+    (it is: the module that generates such cases is the one whose ``prop`` runs them)."""
+    _EXTENSIONS[name] = {"build_config": build_config, "actions": actions}
+
+
+def _extension(cfg):
+    name = cfg.get("ext")
+    if name is None:
+        return None
+    if name not in _EXTENSIONS:
+        raise KeyError(f"vf.pipeline: configuration spec names the extension {name!r}, which no imported module registered")
+    return _EXTENSIONS[name]
+
+
 def build_config(cfg):
     """(colang_text, yaml_text) for a configuration spec."""
-    return _v1_config(cfg) if cfg["v"] == 1 else _v2_config(cfg)
+    co, y = _v1_config(cfg) if cfg["v"] == 1 else _v2_config(cfg)
+    ext = _extension(cfg)
+    if ext and ext["build_config"]:
+        co, y = ext["build_config"](cfg, co, y)
+    return co, y
 
 
 # ------------------------------------------------------------------------------------------------
@@ -415,6 +443,10 @@ class Pipeline:
             self._register(fakes.make_llm_text_action("vf_llm_text_action"))
         if self.v == 2:
             self._register(fakes.make_route_action("VfRouteAction"))
+        ext = _extension(cfg)
+        if ext and ext["actions"]:
+            for fn in ext["actions"](cfg):
+                self._register(fn)
 
     def _register(self, fn):
         self.rails.register_action(fn, fn.__name__)
